@@ -22,14 +22,16 @@ Inductive cop :=
 | CRead (i : nat) (off len : Z)
 | CPrefetch
 | CEvict (ks : list key)
-| CEnvOn (ks : list key).       (* the cache was observed to hold (at most) these chunks before the next read *)
+| CReadObs (i : nat) (off len : Z) (hits : list key).
+    (* a read against a cache whose contents are not predicted (directory cache: memory LRU, fd LRU, files,
+       asynchronous persistence): the probes of the call were observed to be answered exactly for [hits] *)
 
 Definition op_of (L : layer) (o : cop) : op :=
   match o with
   | CRead i off len => Read i off len
   | CPrefetch => Prefetch
   | CEvict ks => Evict ks
-  | CEnvOn ks => Env (honest_on L ks)
+  | CReadObs i off len hits => ReadI i off len (fun _ b c => if b then honest_on L hits else c)
   end.
 
 Inductive case :=
